@@ -82,6 +82,9 @@ def run(F, rep, tier):
     # stays resolvable after its block (a scope the resolver forgets to close) is read as nil outside that block
     import c09
     c09.scope_rules(F, rep, "SCOPE")
+    # `x := .. x ..` reads the x it shadows: the new local is declared `nil` first by the lowering, so the initialiser must not
+    # be resolved with the new binder in scope (function literals excepted - their bodies run later)
+    c09.decl_order(F, rep)
     # arithmetic on tuples and strings: what the metamethods of the runtime do with the operators the emitter writes
     import c19
     ast_ = c19.luaparse.parse(F.read("sylt-compiler/src/preamble.lua"))
